@@ -76,6 +76,7 @@ typedef struct cs_std {
     cs_c sv[CS_MAXP * CS_MAXP];	/* value for implied cells */
     bool abbrev_rows, abbrev_cols; /* give np rows / np columns of M */
     bool null_map;		/* pass port_map == NULL (np==P, in order) */
+    int id;			/* identity of the physical measurement (noise) */
 } cs_std;
 
 typedef struct cs_scenario {
@@ -86,6 +87,9 @@ typedef struct cs_scenario {
     cs_std std[CS_MAXSTD];
     bool ab;			/* present a/b instead of m */
     int a_variant;		/* which 'a' matrix family */
+    cs_c ab_scale;		/* common factor on a and b (0 = none) */
+    double noise;		/* deterministic pseudo-noise amplitude on the
+				   measurements of standards (0 = exact) */
 } cs_scenario;
 
 /* ---- physical model ------------------------------------------------ */
@@ -97,6 +101,11 @@ extern double cs_xf(const cs_vna *v, double f);
    2 everything the type can represent non-zero; smooth in frequency */
 extern void cs_make_vna(cs_vna *v, vnacal_type_t type, int rows, int cols,
 	int nf, int variant);
+/* same with an explicit frequency list */
+extern void cs_make_vna_f(cs_vna *v, vnacal_type_t type, int rows, int cols,
+	int nf, const double *fvec, int variant);
+/* measurements of standard k for every frequency, noise included */
+extern int cs_std_measure(const cs_scenario *sc, int k, cs_c Mf[][CS_MAXP * CS_MAXP]);
 
 /* error network of system sys at an arbitrary frequency */
 extern void cs_net_at(const cs_vna *v, double f, int sys, cs_net *n);
@@ -133,6 +142,8 @@ extern vnacal_new_t *cs_build(vnacal_t *vcp, cs_scenario *sc);
  * calibrations builds the 2x2 matrix with the reversed-DUT row/column.
  * Returns the library's return code in *rc.
  */
+extern int cs_apply(vnacal_t *vcp, int ci, const cs_scenario *sc,
+	cs_c Sdut[][CS_MAXP * CS_MAXP], cs_c Sout[][CS_MAXP * CS_MAXP]);
 extern double cs_apply_error(vnacal_t *vcp, int ci, const cs_scenario *sc,
 	cs_c Sdut[][CS_MAXP * CS_MAXP], int *rc);
 
